@@ -1,5 +1,6 @@
 //! fbrv: model-checking harness for fuse-backend-rs (see /verif/DESIGN.md).
 pub mod args;
+pub mod client;
 pub mod env;
 pub mod kabi;
 pub mod ops;
